@@ -126,6 +126,21 @@ def fixed_families():
             pk[MOD + "/a"]["config"].pop("recursive")
         files[".mockery.yml"] = json.dumps(cfg, indent=1)
         fams.append({"kind": "family", "i": -1 - len(fams), "files": files, "placement": tag})
+    # a template-data key overridden at a more specific level next to keys that only the less specific level sets: the merge must
+    # carry all of them whatever order the keys are visited in
+    for tag, tmpl, keys in (("template-data-override-next-to-inherited-keys-testify", "testify", {"unroll-variadic": True}),
+                            ("template-data-override-next-to-inherited-keys-matryer", "matryer", {"skip-ensure": True, "stub-impl": True, "with-resets": True})):
+        files = {"hdr/boiler.txt": "// Copyright (c) Example Corp.\n"}
+        for k in range(3):
+            files["v%d/a.go" % k] = "package v%d\n\ntype V%d interface{ M(x int, ys ...string) error }\n\ntype U%d interface{ N() }\n" % (k, k, k)
+        root_td = dict(keys, **{"mock-build-tags": "roottag", "boilerplate-file": "hdr/boiler.txt"})
+        first = sorted(keys)[0]
+        pk = {MOD + "/v0": {"config": {"all": True, "template-data": {first: False}}},
+              MOD + "/v1": {"config": {"all": True, "template-data": {"mock-build-tags": "v1tag"}}, "interfaces": {"U1": {"config": {"template-data": {first: False}}}}},
+              MOD + "/v2": {"config": {"all": True}, "interfaces": {"V2": {"configs": [{"template-data": {"boilerplate-file": "hdr/boiler.txt", first: False}}, {"structname": "V2b"}]}}}}
+        cfg = {"force-file-write": True, "template": tmpl, "filename": "mock_{{.StructName}}_test.go", "template-data": root_td, "packages": pk}
+        files[".mockery.yml"] = json.dumps(cfg, indent=1)
+        fams.append({"kind": "family", "i": -1 - len(fams), "files": files, "placement": tag})
     # file-scope template-data keys (mock-build-tags, boilerplate-file) set on single interfaces only, one output file per interface:
     # what one file gets must not depend on which sibling file of the package was rendered before it
     for tag, tmpl in (("file-scope-keys-at-interface-level-testify", "testify"), ("file-scope-keys-at-interface-level-matryer", "matryer")):
